@@ -9,5 +9,5 @@ pub mod multiset;
 pub mod priority_queue;
 pub mod read_only_lock;
 pub mod serde;
-#[cfg(all(kani, feature = "verif-models"))]
+#[cfg(all(kani, feature = "verif-collections"))]
 pub mod verif_collections;
